@@ -258,3 +258,69 @@ UNIT = Unit("ring_atomic", FNS, spec=SPEC, lemmas=[Lemma("lemma_lap", ["C08", "C
             trusted=["u32::overflowing_sub / overflowing_add: assume_specification (wrapping result)"],
             assumptions=["the buffer (values, ptr::write/read, ManuallyDrop) is abstracted to indices in this unit; back end K decides it on the real code",
                          "S-model: one thread; the interleavings of the lock-free protocol are NOT decided"])
+
+
+# ------------------------------------------------------------------------------------------------------------------------------------
+# ring_atomic_a : A-model (adversarial environment) twin of the two COMMIT loops of AtomicMove -- `publish_leaked_internal` (tail) and
+# `release_leaked_internal` (head). In the S-model the compare-exchange succeeds at once (the precondition says it is this ticket's turn), so
+# whatever the code does on the FAILURE path is invisible there. Here every compare-exchange answers arbitrarily (other producers / consumers
+# commit their own tickets at will) and the obligation is thread-local: the function returns only through ONE successful compare-exchange
+# `ticket -> ticket+1` of its own and writes the commit counter in no other way (not on the failure path either) -- that is what keeps
+# commits in ticket order, i.e. what makes "everything below tail is written" / "everything below head is free" true under concurrency.
+# ------------------------------------------------------------------------------------------------------------------------------------
+SPEC_A = r"""
+pub assume_specification [u32::overflowing_add](a: u32, b: u32) -> (r: (u32, bool)) ensures r.0 == a.wrapping_add(b);
+/// A-model commit counter (tail / head): this thread's successful transitions are logged; reads and failed compare-exchanges return anything
+pub struct CommitCounterA { pub commits: Ghost<Seq<(u32, u32)>> }
+impl CommitCounterA {
+    #[verifier::external_body] pub fn load(&self, o: Ordering) -> u32 { unimplemented!() }
+    #[verifier::external_body]
+    pub fn compare_exchange_weak(&mut self, cur: u32, new: u32, o1: Ordering, o2: Ordering) -> (r: Result<u32, u32>)
+        requires new == cur.wrapping_add(1),
+        ensures r is Ok ==> final(self).commits@ == old(self).commits@.push((cur, new)), r is Err ==> final(self).commits == old(self).commits,
+    { unimplemented!() }
+    #[verifier::external_body]
+    pub fn compare_exchange(&mut self, cur: u32, new: u32, o1: Ordering, o2: Ordering) -> (r: Result<u32, u32>)
+        requires new == cur.wrapping_add(1),
+        ensures r is Ok ==> final(self).commits@ == old(self).commits@.push((cur, new)), r is Err ==> final(self).commits == old(self).commits,
+    { unimplemented!() }
+    #[verifier::external_body] pub fn fetch_add(&mut self, d: u32, o: Ordering) -> u32 requires false { unimplemented!() }
+    #[verifier::external_body] pub fn fetch_sub(&mut self, d: u32, o: Ordering) -> u32 requires false { unimplemented!() }
+    #[verifier::external_body] pub fn fetch_max(&mut self, d: u32, o: Ordering) -> u32 requires false { unimplemented!() }
+    #[verifier::external_body] pub fn fetch_min(&mut self, d: u32, o: Ordering) -> u32 requires false { unimplemented!() }
+    #[verifier::external_body] pub fn store(&mut self, v: u32, o: Ordering) requires false { }
+    #[verifier::external_body] pub fn swap(&mut self, v: u32, o: Ordering) -> u32 requires false { unimplemented!() }
+}
+pub struct AtomicMoveA { pub head: CommitCounterA, pub tail: CommitCounterA }
+pub fn relaxed_wait() { }
+"""
+CONTAINER_A = "impl AtomicMoveA"
+
+
+def fn_a(name, **kw):
+    f = FnSpec(F, name, impl=IMPL, **kw)
+    f.container = CONTAINER_A
+    return f
+
+
+FNS_A = [
+    fn_a("try_publish_leaked_internal", props=["C01", "C02", "C08", "C13", "C03"], kind="mechanism", model="A",
+         sig="pub fn try_publish_leaked_internal(&mut self, slot_id: u32) -> (r: bool)", sig_anchor=r"pub fn try_publish_leaked_internal\(&'a self, slot_id: u32\) -> bool",
+         ensures="r ==> final(self).tail.commits@ == old(self).tail.commits@.push((slot_id, slot_id.wrapping_add(1))), !r ==> final(self).tail == old(self).tail, final(self).head == old(self).head"),
+    fn_a("publish_leaked_internal", props=["C01", "C02", "C08", "C13", "C03"], kind="mechanism", model="A", attrs="#[verifier::exec_allows_no_decreases_clause]",
+         sig="pub fn publish_leaked_internal(&mut self, slot_id: u32)", sig_anchor=r"pub fn publish_leaked_internal\(&'a self, slot_id: u32\)",
+         rules=[Rule("R8-break", r"\bbreak\b(?=\s*[,;}])", "return", min=0, note="`break` of the tail loop -> `return`")],
+         ensures="final(self).tail.commits@ == old(self).tail.commits@.push((slot_id, slot_id.wrapping_add(1))), final(self).head == old(self).head",
+         loops={0: "invariant_except_break self.tail.commits == old(self).tail.commits, self.head == old(self).head,\n"
+                   "ensures self.tail.commits@ == old(self).tail.commits@.push((slot_id, slot_id.wrapping_add(1))), self.head == old(self).head,"}, loops_optional=True),
+    fn_a("release_leaked_internal", props=["C01", "C02", "C08", "C13", "C03"], kind="mechanism", model="A", attrs="#[verifier::exec_allows_no_decreases_clause]",
+         sig="pub fn release_leaked_internal(&mut self, slot_id: u32)", sig_anchor=r"pub fn release_leaked_internal\(&self, slot_id: u32\)",
+         rules=[Rule("R8-break", r"\bbreak\b(?=\s*[,;}])", "return", min=0, note="`break` of the tail loop -> `return`")],
+         ensures="final(self).head.commits@ == old(self).head.commits@.push((slot_id, slot_id.wrapping_add(1))), final(self).tail == old(self).tail",
+         loops={0: "invariant self.head.commits == old(self).head.commits, self.tail == old(self).tail,"}, loops_optional=True),
+]
+UNIT_A = Unit("ring_atomic_a", FNS_A, spec=SPEC_A, model="A",
+              trusted=["CommitCounterA: A-model shim of tail / head whose contracts are the PROTOCOL of the two commit counters (DESIGN §3.5 A-step)"],
+              assumptions=["the meta-theorem 'commits in ticket order by every thread => the ring invariant under concurrency' is NOT mechanised",
+                           "termination of the commit spin loops (waiting for earlier tickets) is not proved"])
+UNITS = [UNIT, UNIT_A]
